@@ -5,6 +5,7 @@ From HTA.lib Require Import Base.
 From HTA.gen Require Import Cmp_gen.
 From HTA.model Require Import C03_Model.
 From HTA.proof Require Import C03_Order C03_Proofs.
+From HTA.proof Require Import Scale C03_Scale.
 Open Scope Z_scope.
 
 (* (a) on ends of positive-duration events the GENERATED _less_than is exactly the lexicographic key order *)
@@ -71,3 +72,10 @@ Definition f03 : list ev :=
 Example C03_nonvacuous : encode_C03 f03 =
   ([[1; 7; 2]; [2; -1; 0]; [3; -1; 0]; [5; 1; 3]; [7; 3; 1]; [9; 7; 2]], [[1; 7; 2]; [2; -1; 0]; [3; -1; 0]; [5; 1; 3]; [7; 3; 1]; [9; 7; 2]]).
 Proof. vm_compute. reflexivity. Qed.
+
+(* resolution independence: multiplying every time and duration by k > 0 (fractional microseconds brought to a common
+   denominator) changes neither builder's parent relation -- proved over the comparators generated from the source *)
+Theorem C03_resolution_independent : forall k l, 0 < k ->
+  parents_new (scale_evs k l) = parents_new l /\ parents_old (scale_evs k l) = parents_old l.
+Proof. exact C03_scale. Qed.
+Print Assumptions C03_resolution_independent.
